@@ -47,12 +47,15 @@ type Engine struct {
 	localAlias           map[string]map[string]string // function key -> contract name -> local name (rebind.go)
 	unkIdents            map[string]bool              // identifiers a clause of the current function could not resolve
 	noRebind             bool
-	assumeSkips          int // clauses that could not be assumed because they could not be evaluated
+	assumeSkips          int             // clauses that could not be assumed because they could not be evaluated
 	dropHints            map[string]bool // functions whose unevaluable loop invariants are not used (rebind.go)
 	witnessCache         map[string]*witnessResult
 	refPayload           map[*Term]IfaceV
 	symByRef             map[*Term]*SymIface
 	refFactsBy           map[string][]*Term
+	ptrRefByObj          map[*Obj]*Term
+	ptrByRef             map[*Term]PtrV
+	symElemObj           map[*Obj]bool
 	globalRefs           []string
 	extraTerms           []*Term
 	symMode              int
@@ -76,30 +79,31 @@ type Engine struct {
 
 func newEngine() *Engine {
 	e := &Engine{
-		ssaPkgs:    map[string]*ssa.Package{},
-		contracts:  map[string]*Contract{},
-		specFuns:   map[string]*SpecFun{},
-		ifaceCon:   map[string]*Contract{},
-		funcsByK:   map[string]*ssa.Function{},
-		typeIDs:    map[string]int{},
-		byteArrs:   map[string]bool{},
-		strArrs:    map[string]bool{},
-		strVars:    map[string]bool{},
-		initHeap:   map[*Obj]Value{},
-		lazyFacts:  map[*Obj][]*Term{},
-		globals:    map[*ssa.Global]*Obj{},
-		initGhost:  map[string]Value{},
-		restObjs:   map[string]*Obj{},
-		restVals:   map[string]Value{},
-		entries:    map[string]*EntryInfo{},
-		ghostSorts: map[string]string{},
-		auxGhost:   map[string]bool{},
-		localAlias: map[string]map[string]string{},
-		dropHints:  map[string]bool{},
-		propAll:    map[string]bool{},
-		refPayload: map[*Term]IfaceV{},
-		symByRef:   map[*Term]*SymIface{},
-		refFactsBy: map[string][]*Term{},
+		ssaPkgs:     map[string]*ssa.Package{},
+		contracts:   map[string]*Contract{},
+		specFuns:    map[string]*SpecFun{},
+		ifaceCon:    map[string]*Contract{},
+		funcsByK:    map[string]*ssa.Function{},
+		typeIDs:     map[string]int{},
+		byteArrs:    map[string]bool{},
+		strArrs:     map[string]bool{},
+		strVars:     map[string]bool{},
+		initHeap:    map[*Obj]Value{},
+		lazyFacts:   map[*Obj][]*Term{},
+		globals:     map[*ssa.Global]*Obj{},
+		initGhost:   map[string]Value{},
+		restObjs:    map[string]*Obj{},
+		restVals:    map[string]Value{},
+		entries:     map[string]*EntryInfo{},
+		ghostSorts:  map[string]string{},
+		auxGhost:    map[string]bool{},
+		localAlias:  map[string]map[string]string{},
+		dropHints:   map[string]bool{},
+		propAll:     map[string]bool{},
+		refPayload:  map[*Term]IfaceV{},
+		symByRef:    map[*Term]*SymIface{},
+		refFactsBy:  map[string][]*Term{},
+		ptrRefByObj: map[*Obj]*Term{}, ptrByRef: map[*Term]PtrV{}, symElemObj: map[*Obj]bool{},
 		assumpLog:  map[string]bool{},
 		ordCache:   map[*ssa.Function]map[ssa.Instruction]int{},
 		loopCache:  map[*ssa.Function]*loopInfo{},
